@@ -8,8 +8,8 @@ package c06
 import (
 	"fmt"
 	"os"
-	"strings"
 	"strconv"
+	"strings"
 	"testing"
 
 	"pgregory.net/rapid"
@@ -20,10 +20,9 @@ import (
 
 var rec *vlib.Rec
 
-const (
-	f1 = "F-C06-1" // call site of a reassigned package-level func variable keeps the first value
-	f2 = "F-C06-2" // method value with value receiver of struct/array type is not bound to a copy
-)
+// known findings: id -> shape; the generator does not produce the shape of a finding
+// that is listed as "known" in known_findings.json, and counts how often it would have
+var findingIDs = []string{"F-C06-1", "F-C06-2", "F-C06-3", "F-C06-4", "F-C06-5", "F-C06-6", "F-C06-7"}
 
 func TestMain(m *testing.M) {
 	rec = vlib.Open("C06")
@@ -52,9 +51,16 @@ func known(p gobatch.Program, got, want gobatch.Result) string {
 	return ""
 }
 
+var avoid map[string]bool
+
 func genProgram(t *rapid.T, px string) gobatch.Program {
-	p := generate(t, px, rec.Known(f1), rec.Known(f2))
-	return p
+	if avoid == nil {
+		avoid = map[string]bool{}
+		for _, id := range findingIDs {
+			avoid[id] = rec.Known(id)
+		}
+	}
+	return generate(t, px, avoid)
 }
 
 // excluded shapes are switched off inside the generator; count them
@@ -62,11 +68,10 @@ func countExcluded(p gobatch.Program) string {
 	if p.HasTag("excluded-shape:mutual-recursion-of-declared-functions") {
 		rec.Label("excluded:mutual recursion of declared functions needs a forward declaration (out-of-order declarations: C16/C17)")
 	}
-	if p.HasTag("excluded-shape:" + f1) {
-		rec.Excluded(f1)
-	}
-	if p.HasTag("excluded-shape:" + f2) {
-		rec.Excluded(f2)
+	for _, id := range findingIDs {
+		if p.HasTag("excluded-shape:" + id) {
+			rec.Excluded(id)
+		}
 	}
 	return ""
 }
